@@ -286,6 +286,114 @@ func c17Run(rc *engine.RunCtx) *engine.Result {
 			}
 		}
 	}
+	// 5b. history independence: every ordered pair (and, thorough, triple) of calls whose inputs are
+	// written into the SAME memory (one outer list, one buffer per element, overwritten in place
+	// between calls) — the answer to each call is the reference's answer for the bytes it was given,
+	// whatever was asked before.
+	{
+		type inp struct {
+			name  string
+			leaf  [32]byte
+			proof [][]byte
+		}
+		var menu []inp
+		for _, nleaves := range []int{3, 5} {
+			var leaves [][32]byte
+			for k := 0; k < nleaves; k++ {
+				leaves = append(leaves, ref.Leaf(1, uint64(k+1), fmt.Sprintf("from%d", k), fmt.Sprintf("to%d", k), "uinit", uint64(1000+k)))
+			}
+			tr := ref.BuildTree(leaves)
+			for pos := 0; pos < nleaves; pos++ {
+				proof := tr.Proof(pos)
+				cp := func() [][]byte {
+					var o [][]byte
+					for _, e := range proof {
+						o = append(o, append([]byte{}, e...))
+					}
+					return o
+				}
+				menu = append(menu, inp{fmt.Sprintf("n=%d,pos=%d,valid", nleaves, pos), leaves[pos], cp()})
+				f0 := cp()
+				f0[0][0] ^= 1
+				menu = append(menu, inp{fmt.Sprintf("n=%d,pos=%d,first-element-bit-flipped", nleaves, pos), leaves[pos], f0})
+				fl := cp()
+				fl[len(fl)-1][31] ^= 0x80
+				menu = append(menu, inp{fmt.Sprintf("n=%d,pos=%d,last-element-bit-flipped", nleaves, pos), leaves[pos], fl})
+				if len(proof) >= 2 {
+					sw := cp()
+					sw[0], sw[1] = sw[1], sw[0]
+					menu = append(menu, inp{fmt.Sprintf("n=%d,pos=%d,elements-swapped", nleaves, pos), leaves[pos], sw})
+				}
+			}
+		}
+		depth := 2
+		if rc.Thorough() {
+			depth = 3
+		}
+		const maxProof = 4
+		outer := make([][]byte, maxProof)
+		bufs := make([][]byte, maxProof)
+		for i := range bufs {
+			bufs[i] = make([]byte, 32)
+		}
+		var seqs int64
+		var walk func(hist []int)
+		walk = func(hist []int) {
+			if len(hist) == depth {
+				return
+			}
+			for i := range menu {
+				h := append(append([]int{}, hist...), i)
+				// replay the whole history on the shared memory, then ask the last question
+				var got [32]byte
+				for _, j := range h {
+					in := menu[j]
+					for e := range in.proof {
+						copy(bufs[e], in.proof[e])
+						outer[e] = bufs[e]
+					}
+					evals++
+					got = ophosttypes.GenerateRootHashFromProofs(in.leaf, outer[:len(in.proof)])
+				}
+				seqs++
+				states++
+				last := menu[i]
+				if want := ref.RootFromProof(last.leaf, last.proof); got != want {
+					var names []string
+					for _, j := range h {
+						names = append(names, menu[j].name)
+					}
+					name := "root-from-proofs-history(" + strings.Join(names, " ; ") + ")"
+					report(tagged(viol("root-depends-only-on-byte-values", "%s: the last call returned %x.., the bytes it was given hash to %x.. (the answer depends on an earlier call that used the same memory)", name, got[:4], want[:4]), "function", "GenerateRootHashFromProofs", "kind", "history"), name)
+					continue
+				}
+				walk(h)
+			}
+		}
+		walk(nil)
+		// the same for the node hash: ordered pairs of argument pairs in two reused buffers
+		ba, bb := make([]byte, 32), make([]byte, 32)
+		for _, a1 := range nodes {
+			for _, b1 := range nodes {
+				for _, a2 := range nodes {
+					for _, b2 := range nodes {
+						copy(ba, a1)
+						copy(bb, b1)
+						ophosttypes.GenerateNodeHash(ba, bb)
+						copy(ba, a2)
+						copy(bb, b2)
+						evals += 2
+						seqs++
+						if got, want := ophosttypes.GenerateNodeHash(ba, bb), ref.Node(a2, b2); got != want {
+							name := fmt.Sprintf("node-history((%x..,%x..) ; (%x..,%x..))", a1[:2], b1[:2], a2[:2], b2[:2])
+							report(tagged(viol("node-hash-matches-format", "%s: second call on the same buffers returned %x.., expected %x..", name, got[:4], want[:4]), "kind", "history"), name)
+						}
+					}
+				}
+			}
+		}
+		res.Coverage["call_histories_on_shared_memory"] = map[string]any{"root_from_proofs_menu": len(menu), "history_length": depth, "histories": seqs}
+	}
 	// 6. the message handler gives the same verdict for the same claim under every layout
 	verdicts := c17HandlerLayouts(report, &states, &evals)
 	res.Coverage["handler_layout_verdicts"] = verdicts
@@ -355,7 +463,7 @@ func init() {
 	register(&Check{ID: "C17", Level: "model_checking",
 		Run: c17Run,
 		Replay: func(kind string, path []string) ([]string, *engine.Violation, error) {
-			rc := &engine.RunCtx{Property: "C17", Tier: "quick", Known: &engine.KnownFile{}, Start: time.Now(), Budget: time.Minute}
+			rc := &engine.RunCtx{Property: "C17", Tier: "thorough", Known: &engine.KnownFile{}, Start: time.Now(), Budget: time.Minute}
 			res := c17Run(rc)
 			for _, v := range res.Violations {
 				if len(path) == 1 && len(v.Path) == 1 && v.Path[0] == path[0] {
